@@ -24,7 +24,7 @@ FLOORS = ["purity-under-interference-checked", "host-ipv6-hex", "host-ipv6-dec",
 PROBE_FLOORS = ["lru_stems_from_parsed_url", "lru_to_url", "unserialize_lru"]
 
 SCHEMES = ["http://", "", "https://", "ftp://", "HTTP://", "//", "wss://"]
-USERINFO = ["", "user@", "user:pw@", ":pw@", "us.er:p:w@", "%40u:p%3A@", "@", ":@", "user:@"]
+USERINFO = ["", "user@", "user:pw@", ":pw@", "us.er:p:w@", "%40u:p%3A@", "@", ":@", "user:@", "user:p@ss@", "u@v@"]
 HOSTS = ["a.com", "www.a.co.uk", "A.Com", "b.a.compute.amazonaws.com", "foo.ck", "www.ck", "x.city.kawasaki.jp", "1.2.3.4", "[::1]", "[2001:db8::1]",
          "[fe80::a:b]", "[1:2:3:4:5:6:7:8]", "[::ffff:1.2.3.4]", "localhost", "com", "co.uk", "xn--tlrama-bvab.fr", "télérama.fr", "unknown.zzzz", "a.b.c.d.e.f",
          "svc.firenet.ch", "a-b.example.org", "127.0.0.1", "WWW.Example.ORG", "cafe.be", "[2001:DB8::A]"]
@@ -127,6 +127,8 @@ def check(ctx, u, sa, mods):
                     ui = a.rpartition("@")[0] if "@" in a else None
                     if ui is not None and (ui == "" or ui.endswith(":")) and a.rpartition("@")[2] == b.rpartition("@")[2]:
                         kind = ":empty-user-or-password"
+                    elif ui is not None and "@" in ui:
+                        kind = ":raw-at-in-userinfo"
                     else:
                         kind = ":ipv6" if "[" in a else (":userinfo" if "@" in a else ":host-port")
                 ctx.viol("C12:roundtrip-%s%s" % (name, kind), wit, {"via": which, "want": a, "got": b, "stems": stems})
